@@ -545,6 +545,57 @@ pub(crate) enum Event {
     },
     Eof,
 }
+/// Instrumentation for deterministic simulation, compiled only with the
+/// `verif_hooks` feature: a per-thread step budget for the XML reader, so that a
+/// loop that never ends becomes a deterministic, replayable signal. Without a
+/// budget (the default) it does nothing.
+#[cfg(feature = "verif_hooks")]
+pub mod verif_hooks {
+    use std::cell::Cell;
+
+    thread_local! {
+        static BUDGET: Cell<Option<u64>> = const { Cell::new(None) };
+        static USED: Cell<u64> = const { Cell::new(0) };
+        static EXHAUSTED: Cell<bool> = const { Cell::new(false) };
+    }
+
+    /// Set (or clear) the step budget of the current thread and reset the counters.
+    pub fn set_budget(budget: Option<u64>) {
+        BUDGET.with(|b| b.set(budget));
+        USED.with(|u| u.set(0));
+        EXHAUSTED.with(|e| e.set(false));
+    }
+
+    /// Steps taken since the budget was set.
+    pub fn used() -> u64 {
+        USED.with(|u| u.get())
+    }
+
+    /// Answers if the budget ran out since it was set.
+    pub fn exhausted() -> bool {
+        EXHAUSTED.with(|e| e.get())
+    }
+
+    /// Count one step; answers if the budget is spent.
+    pub(crate) fn tick() -> bool {
+        match BUDGET.with(|b| b.get()) {
+            None => false,
+            Some(budget) => {
+                let used = USED.with(|u| {
+                    u.set(u.get() + 1);
+                    u.get()
+                });
+                if used > budget {
+                    EXHAUSTED.with(|e| e.set(true));
+                    true
+                } else {
+                    false
+                }
+            }
+        }
+    }
+}
+
 pub(crate) struct XmlReaderWithContext<B: BufRead> {
     xml_reader: XmlReader<B>,
     file_path: PathBuf,
@@ -554,9 +605,17 @@ impl<B: BufRead> XmlReaderWithContext<B> {
         self.xml_reader.buffer_position()
     }
     pub fn read_event<'a>(&mut self, buf: &'a mut Vec<u8>) -> Result<XmlEvent<'a>, Error> {
+        #[cfg(feature = "verif_hooks")]
+        if verif_hooks::tick() {
+            return Err(Error::Parse("step budget exhausted".to_string()));
+        }
         Ok(self.xml_reader.read_event_into(buf)?)
     }
     pub fn read_text(&mut self, buf: &mut Vec<u8>) -> Result<String, Error> {
+        #[cfg(feature = "verif_hooks")]
+        if verif_hooks::tick() {
+            return Err(Error::Parse("step budget exhausted".to_string()));
+        }
         match self.xml_reader.read_event_into(buf)? {
             XmlEvent::Text(ref e) => match e.unescape() {
                 Ok(text) => Ok(text.into_owned()),
